@@ -7,7 +7,7 @@ LEAN_TARGETS = ["RxProofs.C14"]
 DRIVER = "drv_pipe"
 DRIVER_ROOT = "Pipe"
 THEOREMS = ["C14.shared_deferred", "C14.trampoline_assign_before_emit", "C14.fresh_emit_before_assign", "C14.early_term_bounded",
-            "C14.immediate_scheduler_diverges", "C14.fromIter_take"]
+            "C14.immediate_scheduler_diverges", "C14.fromIter_take", "C14.loop_starves_queued", "C14.resched_producer_fair"]
 BUDGET = 400
 PRODUCERS = ["from_iterable", "range", "repeat_value", "generate", "repeat_of"]
 SHAPES = ["direct", "map_filter", "merge", "flat_map_inner", "flat_map_outer", "concat", "concat_after", "switch_map", "share", "amb",
@@ -22,7 +22,8 @@ LEVEL_TEXT = ("Lean theorems about the subscribe/trampoline ordering and the pol
               "producer's action runs, so take(n) over a never-ending producer pulls exactly n elements for every n>=1 and every budget (bounded work); with an "
               "immediate/fresh scheduler the loop provably never sees its flag (every budget is consumed) — the recorded findings. The model's verdict "
               "(bounded with m pulls / diverges) is compared with the real code for the linear shapes; all 900 listed combinations run under the oracle.")
-LEVEL_NOTE = ("Partial: theorems cover producer -> pass-through stages -> counting terminator under both scheduler disciplines. Shapes whose terminator depends "
+LEVEL_NOTE = ("Partial: theorems cover producer -> pass-through stages -> counting terminator under both scheduler disciplines. take_until over from_iterable/range/generate is additionally decided by the trampoline-queue model "
+              "(loop_starves_queued / resched_producer_fair). Other shapes whose terminator depends "
               "on another scheduled source (merge/flat_map/concat/switch_map/share/amb/with_latest_from/combine_latest, take_until) are decided by the budgeted "
               "oracle on the real code only. Known findings (not small fixes): explicit immediate/fresh current-thread scheduler with from_iterable/range; "
               "from_iterable's single-action loop starving queued sources (take_until(of), combine_latest(of), infinite outer of flat_map).")
@@ -45,9 +46,17 @@ def cases(rng, tier):
             yield {"op": "subscribe_run", "producer": p, "shape": sh, "term": t, "sched": "default", "n": rng.randrange(1, 6), "prelude": "crash"}
 
 
+QUEUE_MODEL = {"from_iterable": "loop", "range": "step", "generate": "step"}
+
+
 def model_request(case):
-    if case.get("prelude") or case["shape"] not in LINEAR or case["term"] == "take_until":
+    if case.get("prelude") or case["shape"] not in LINEAR:
         return None
+    if case["term"] == "take_until":
+        # the terminator depends on a second, queued source: the trampoline-queue model (drainQ) decides
+        if case["sched"] != "default" or case["producer"] not in QUEUE_MODEL:
+            return None
+        return {"op": "drain_q", "producer": QUEUE_MODEL[case["producer"]], "fuel": BUDGET}
     return {"op": "subscribe_run", "shared": case["sched"] == "default", "n": needed(case["term"], case["n"]), "fuel": BUDGET}
 
 
@@ -152,6 +161,8 @@ def canon_impl(case, out):
 def canon_model(case, resp):
     if "error" in resp:
         return resp
+    if "otherRan" in resp:
+        return {"bounded": True, "pulls": resp["producedBefore"]} if resp["otherRan"] else {"bounded": False}
     return {"bounded": True, "pulls": resp["pulls"]} if resp["stopped"] else {"bounded": False}
 
 
